@@ -1281,3 +1281,37 @@ def unit_word_get(prop="C13"):
                             to_case=tc, replay_module="rtc.c13")
     unit.__name__ = "word_get"
     return unit
+
+
+# ------------------------------------------------------------------------------------------------------------- ulong_get
+# The closure that reads the header fields and BLOCKSIZE operands: a ULONGSIZE-bit Rice value giving the width, then a value of that width.
+def contract_ulong():
+    def h(ex, st, args, kwargs, node, ev):
+        k = st.ghost["ucalls"]
+        st.ghost["ucalls"] = k + [args[0] if len(args) == 1 and not kwargs else None]
+        return z3.Int("uvar_result_%d" % len(k))
+
+    def ok(ev, res):
+        calls = ev.st.ghost["ucalls"]
+        if len(calls) != 2 or calls[0] != 2:
+            return z3.BoolVal(False)
+        return z3.And(Z(calls[1]) == z3.Int("uvar_result_0"), Z(res) == z3.Int("uvar_result_1"))
+
+    consts = {"OK": SpecFn(ok)}
+    for k_, v_ in extract.module_constants("_sphere").items():
+        if isinstance(v_, int) and k_ not in consts:
+            consts[k_] = v_
+    return Contract(target="_sphere:copy_shortened_samples.<locals>.ulong_get", uses=["A-PYSEM", "A-BITREADER"], consts=consts,
+                    handlers={"uvar_get": h}, ensures=[("width_field_then_a_value_of_that_width", "OK(result)")])
+
+
+def unit_ulong(prop="C13"):
+    def unit(tier, known):
+        from contracts.registry import run_contract
+
+        def setup(ex, st):
+            st.ghost.update(ucalls=[])
+        return run_contract(prop, ("_sphere", "copy_shortened_samples.<locals>.ulong_get"), contract_ulong(), [("", setup)], name="ulong_get",
+                            to_case=_to_case, replay_module="rtc.c13")
+    unit.__name__ = "ulong_get"
+    return unit
